@@ -90,6 +90,14 @@ pub struct Deserializer<'de> {
 
 impl<'de> Deserializer<'de> {
     pub(crate) fn new(fields: &[Field], views: Vec<View<'de>>) -> Result<Self> {
+        if fields.len() != views.len() {
+            fail!(
+                "Cannot deserialize: the number of fields ({num_fields}) does not match the number of arrays ({num_views})",
+                num_fields = fields.len(),
+                num_views = views.len(),
+            );
+        }
+
         let len = match views.first() {
             Some(view) => view.len()?,
             None => 0,
